@@ -13,6 +13,12 @@ Sub-checks
              an outer binding of the same name
   ref        Ref definitions / uses: nearest enclosing definition, recursion over trees, no leak
              from sibling definitions
+  specchain  a Spec(x, scope={..}) step or a Ref(name, spec) definition step of a tuple / Pipe followed by readers (S.name,
+             Coalesce(S.name, default), S['name'], Ref(name), also nested one level down), with and without an outer binding of
+             the same name (caller scope=, earlier S(name=..) step, enclosing Ref definition); controls: the binder as a
+             dict sibling / inside a 1-tuple.  The later steps must not see the Spec's scope / the definition.  The unchanged
+             library shows them (known finding F93): a mismatch is attributed to F93 only when the observed outcome equals the
+             "leaky" model (both write into the frame the next step chains from) and differs from the statement's model
 
 Oracle: refscope - a static environment calculus transcribed from the statement.
 """
@@ -35,7 +41,10 @@ ASSUMPTIONS = [
     'refscope: a chain step sees the bindings made *directly* by earlier steps of the same chain; nested specs see their '
     'parent\'s environment; dict values, list elements, Coalesce/And/Or children see only their parent\'s environment; a '
     'Switch / Match-dict value additionally sees the direct bindings of its own key',
-    'Spec(x, scope=...) and Ref definitions are generated wrapped in a 1-tuple when they are chain steps (their visibility to later steps is not asserted either way)',
+    'sub scope: Spec(x, scope=...) and Ref definitions are generated wrapped in a 1-tuple when they are chain steps; their visibility to later '
+    'steps is asserted by sub specchain (must be invisible: a later step is neither in the Spec\'s subtree nor enclosed by the definition)',
+    'specchain: bodies of Ref definitions hold no scope readers that a use site reaches, so the environment of the definition and of the '
+    'use cannot be told apart; Ref(name) without an enclosing definition is an error that no Coalesce inside the spec skips',
     'binders nested inside a compound Switch/Match key are invisible to the value',
     'Glommer().glom(target, spec, scope=m) is held to the expectations of glom(target, spec, scope=m) (Glommer docstring: the same '
     'function with a registry of its own); neither m nor the Glommer\'s own scope may change',
@@ -661,9 +670,259 @@ def check_ref(recipe, ctx):
     ctx.outcome([inner, len(tree['kids'])])
 
 
+# ---------------------------------------------------------------------------
+# specchain: Spec(x, scope={..}) / Ref(name, spec) as a STEP of a tuple / Pipe, followed by readers
+#
+# Statement: "Spec(scope=) overrides for its subtree", "Ref(name) resolves to the nearest enclosing Ref(name, spec)".  A later
+# step of the chain is not in the subtree / not enclosed: it sees what it would see without that step.  Only S(name=..) and
+# A.name chain forward.  The unchanged library writes both into the frame the next step chains from (known finding F93);
+# sc_model(leaky=True) describes exactly that and is used by the classifier only.
+
+class Unresolved(Exception):
+    """Ref(name) without an enclosing definition: a KeyError that no Coalesce inside the spec skips"""
+
+
+SC_READERS_SPEC = ['read', 'readc', 'readitem', 'nested-dict', 'nested-tuple', 'nested-list']
+SC_READERS_REF = ['refuse', 'refuse', 'nested-dict', 'nested-tuple', 'nested-list']
+
+
+def gen_specchain(draw):
+    S_ = st.sampled_from
+    binder = draw(S_(['spec', 'refdef']))
+    r = {'binder': binder, 'name': draw(S_(NAMES)), 'chain': draw(S_(['tuple', 'pipe'])),
+         # 'step' is the form under test; the other two are the controls (the binder is a sibling / one level down)
+         'placement': draw(S_(['step', 'step', 'step', 'dict-sibling', 'one-tuple'])),
+         'layout': draw(S_(['steps', 'dict']))}
+    if binder == 'spec':
+        r['outer'] = draw(S_(['none', 'caller', 'earlier-step', 'both']))
+        r['body'] = draw(S_(['id', 'readc', 'const', 'chain-bind']))
+        r['both_names'] = draw(st.booleans())            # the Spec's scope carries the other name, too
+        r['between'] = draw(S_(['none', 'none', 'id', 'const', 'rebind']))
+        r['readers'] = draw(st.lists(S_(SC_READERS_SPEC), min_size=1, max_size=3))
+    else:
+        r['outer'] = draw(S_(['none', 'enclosing-ref']))
+        r['body'] = draw(S_(['const', 'id', 'dict']))
+        r['between'] = draw(S_(['none', 'none', 'id', 'const']))
+        r['readers'] = draw(st.lists(S_(SC_READERS_REF), min_size=1, max_size=3))
+    return r
+
+
+def sc_program(recipe):
+    """recipe -> (tree, target, caller scope)"""
+    name = recipe['name']
+    isspec = recipe['binder'] == 'spec'
+    if isspec:
+        body = {'id': ['id'], 'readc': ['readc', name], 'const': ['const', 'spec-body'],
+                'chain-bind': ['chain', 'tuple', [['bind', name, 'inner-v'], ['readc', name]]]}[recipe['body']]
+        scope = {name: 'spec-v'}
+        if recipe.get('both_names'):
+            scope[[n for n in NAMES if n != name][0]] = 'spec-other'
+        binder = ['spec', scope, body]
+        simple = {'read': ['read', name], 'readc': ['readc', name], 'readitem': ['readitem', name]}
+        inner = ['readc', name]
+    else:
+        body = {'const': ['const', 'inner-def'], 'id': ['id'], 'dict': ['dict', [['id']]]}[recipe['body']]
+        binder = ['refdef', name, body]
+        simple = {'refuse': ['refuse', name]}
+        inner = ['refuse', name]
+    readers = []
+    for form in recipe['readers']:
+        if form in simple:
+            readers.append(simple[form])
+        elif form == 'nested-dict':
+            readers.append(['dict', [inner]])
+        elif form == 'nested-tuple':
+            readers.append(['chain', 'tuple', [['id'], inner]])
+        elif form == 'nested-list':
+            readers.append(['list', inner])
+        else:
+            raise HarnessBug('C07 specchain: reader form %r' % (form,))
+    steps = []
+    if recipe['outer'] in ('earlier-step', 'both'):
+        steps.append(['bind', name, 'chain-v'])
+    between = {'none': [], 'id': [['id']], 'const': [['const', 'between']], 'rebind': [['bind', name, 'later-v']]}[recipe['between']]
+    placement = recipe['placement']
+    if placement == 'dict-sibling':
+        steps.extend(between)
+        steps.append(['dict', [binder] + readers])
+    else:
+        steps.append(binder if placement == 'step' else ['wrap1', binder])
+        steps.extend(between)
+        if recipe['layout'] == 'dict':
+            steps.append(['dict', readers])
+        else:
+            steps.extend(readers)
+    tree = ['chain', recipe['chain'], steps]
+    target = [1, 2]
+    if recipe['outer'] == 'enclosing-ref':
+        # an enclosing definition of the same name; its body descends only where the target has the key 'go', so that a use
+        # which resolves to it terminates: on anything else the body gives 'outer-leaf'
+        tree = ['refdef', name, ['guard', tree]]
+        target = {'go': [1, 2]}
+    caller = {'k': 'caller-k', 'j': 'caller-j'} if recipe['outer'] in ('caller', 'both') else None
+    return tree, target, caller
+
+
+def sc_build(r):
+    k = r[0]
+    if k == 'spec':
+        return Spec(sc_build(r[2]), scope=dict(r[1]))
+    if k == 'refdef':
+        return Ref(r[1], sc_build(r[2]))
+    if k == 'refuse':
+        return Ref(r[1])
+    if k == 'bind':
+        return S(**{r[1]: Val(r[2])})
+    if k == 'read':
+        return getattr(S, r[1])
+    if k == 'readc':
+        return Coalesce(getattr(S, r[1]), default=UNB)
+    if k == 'readitem':
+        return Coalesce(S[r[1]], default=UNB)
+    if k == 'id':
+        return T
+    if k == 'const':
+        return Val(r[1])
+    if k == 'chain':
+        steps = [sc_build(x) for x in r[2]]
+        return tuple(steps) if r[1] == 'tuple' else Pipe(*steps)
+    if k == 'wrap1':
+        return (sc_build(r[1]),)
+    if k == 'dict':
+        return dict(('f%d' % i, sc_build(x)) for i, x in enumerate(r[1]))
+    if k == 'list':
+        return [sc_build(r[1])]
+    if k == 'guard':
+        return Coalesce((T['go'], sc_build(r[1])), default='outer-leaf')
+    raise HarnessBug('C07 specchain: node %r' % (r,))
+
+
+def sc_ev(r, target, env, leaky, depth=0):
+    """(value, bindings that the LATER steps of the enclosing chain see).  env: name -> value, ('ref', name) -> body.
+    leaky=False is the statement; leaky=True additionally hands the Spec's scope / the Ref definition to the later steps."""
+    if depth > 60:
+        raise HarnessBug('C07 specchain: the reference recursed without end on %r' % (r,))
+    k = r[0]
+    sub = lambda x, t, e: sc_ev(x, t, e, leaky, depth + 1)
+    if k == 'spec':
+        e = dict(env)
+        e.update(r[1])
+        return sub(r[2], target, e)[0], (dict(r[1]) if leaky else {})
+    if k == 'refdef':
+        e = dict(env)
+        e[('ref', r[1])] = r[2]
+        return sub(r[2], target, e)[0], ({('ref', r[1]): r[2]} if leaky else {})
+    if k == 'refuse':
+        body = env.get(('ref', r[1]))
+        if body is None:
+            raise Unresolved(r[1])
+        return sub(body, target, env)[0], {}
+    if k == 'bind':
+        return target, {r[1]: r[2]}
+    if k == 'read':
+        if r[1] not in env:
+            raise Fail()
+        return env[r[1]], {}
+    if k in ('readc', 'readitem'):
+        return env.get(r[1], UNB), {}
+    if k == 'id':
+        return target, {}
+    if k == 'const':
+        return r[1], {}
+    if k == 'chain':
+        cur, e = target, env
+        for x in r[2]:
+            cur, db = sub(x, cur, e)
+            if db:
+                e = dict(e)
+                e.update(db)
+        return cur, {}
+    if k == 'wrap1':
+        return sub(r[1], target, env)[0], {}
+    if k == 'dict':
+        return dict(('f%d' % i, sub(x, target, env)[0]) for i, x in enumerate(r[1])), {}
+    if k == 'list':
+        if not isinstance(target, (list, dict)):
+            raise Fail()          # glom iterates neither strings nor scalars
+        return [sub(r[1], t, env)[0] for t in list(target)], {}          # (a dict gives its keys)
+    if k == 'guard':
+        if not (isinstance(target, dict) and 'go' in target):
+            return 'outer-leaf', {}
+        try:
+            return sub(r[1], target['go'], env)[0], {}
+        except Fail:
+            return 'outer-leaf', {}
+    raise HarnessBug('C07 specchain: node %r' % (r,))
+
+
+def sc_model(tree, target, caller, leaky):
+    try:
+        return ('ok', sc_ev(tree, target, dict(caller or {}), leaky)[0])
+    except (Fail, Unresolved):
+        return ('fail',)
+
+
+def sc_run(spec, target, caller):
+    kw = {'scope': caller} if caller is not None else {}
+    try:
+        return ('ok', glom.glom(target, spec, **kw))
+    except GlomError:
+        return ('fail',)
+
+
+def check_specchain(recipe, ctx):
+    tree, target, caller = sc_program(recipe)
+    isstep = recipe['placement'] == 'step'
+    if isstep:
+        ctx.label('spec-scope-step-then-reader' if recipe['binder'] == 'spec' else 'ref-def-step-then-reader')
+    else:
+        ctx.label('controls', 'control-' + recipe['placement'])
+    if recipe['outer'] != 'none':
+        ctx.label('with-outer-binding', 'outer-' + recipe['outer'])
+    ctx.label('chain-' + recipe['chain'])
+    lex = sc_model(tree, target, caller, False)
+    ctx.label('leak-would-show' if sc_model(tree, target, caller, True) != lex else 'models-agree')
+    ctx.nontrivial(isstep or recipe['outer'] != 'none')
+    spec = sc_build(tree)
+    where = 'glom(%r, %r%s)' % (target, spec, ', scope=%r' % (caller,) if caller else '')
+    for rep in range(2):
+        given = dict(caller) if caller is not None else None
+        exp = sc_model(tree, target, given, False)
+        try:
+            got = sc_run(spec, target, given)
+        except Exception as e:
+            raise Mismatch('chain-unexpected-exception', '%s: %s: %r' % (where, type(e).__name__, e))
+        if exp != got:
+            raise Mismatch('chain-outcome' if exp[0] != got[0] else 'chain-visibility',
+                           '%s (evaluation #%d of the same spec object): expected %r (the later steps are outside the subtree of the '
+                           'Spec / not enclosed by the definition), got %r' % (where, rep + 1, exp, got))
+        if given is not None and (given != caller or list(given) != list(caller)):
+            raise Mismatch('caller-scope-modified', '%s: caller mapping is now %r' % (where, given))
+    ctx.outcome([repr(spec)[:140], lex])
+
+
+def is_f93(recipe, mm):
+    """known finding F93: the observed outcome is exactly what the model predicts in which Spec(scope=) / Ref(name, spec) write
+    into the frame the next step chains from, and that differs from the statement's model"""
+    if 'binder' not in recipe or mm.kind not in ('chain-outcome', 'chain-visibility'):
+        return False
+    tree, target, caller = sc_program(recipe)
+    lex = sc_model(tree, target, caller, False)
+    leak = sc_model(tree, target, caller, True)
+    got = sc_run(sc_build(tree), target, dict(caller) if caller is not None else None)
+    return got == leak and got != lex
+
+
+CLASSIFIERS = {'F93-spec-scope-chains': is_f93}
+
+
 SUBS = [
     Sub('scope', check, gen=gen, quick=5000, thorough=20000, floors={'caller-scope': 0.3, 'exp-ok': 0.5, 'lazy-iter': 0.05,
                 'glommer-with-scope': 0.07, 'a-index-computed-read-back': 0.05}),
     Sub('matchdict', check_matchdict, gen=gen_matchdict, quick=800, thorough=3000),
     Sub('ref', check_ref, gen=gen_ref, quick=600, thorough=2500),
+    Sub('specchain', check_specchain, gen=gen_specchain, quick=800, thorough=3000,
+        # (shares of the cases that PASS: while F93 is open most step cases are known-finding hits and not counted in the
+        # denominator; the floors are set against the shares of all generated cases, so they also hold once it is repaired)
+        floors={'spec-scope-step-then-reader': 0.15, 'ref-def-step-then-reader': 0.15, 'with-outer-binding': 0.3, 'controls': 0.18}),
 ]
